@@ -137,16 +137,18 @@ def do_op(T, op):
         need_tx(o)
         from bitcoin.core.script import SIGVERSION_WITNESS_V0
         r = SignatureHash(CScript(op[2]), o, op[3], op[4])
-        # the BIP143 form on the object as it is now and on a fresh immutable snapshot of it: one value
-        try:
-            w1 = SignatureHash(CScript(op[2]), o, op[3], op[4], amount=7, sigversion=SIGVERSION_WITNESS_V0)
-        except Exception as e:  # noqa
-            w1 = type(e).__name__
-        try:
-            w2 = SignatureHash(CScript(op[2]), CTransaction.from_tx(o), op[3], op[4], amount=7, sigversion=SIGVERSION_WITNESS_V0)
-        except Exception as e:  # noqa
-            w2 = type(e).__name__
-        if w1 != w2:
+        # the BIP143 form on the object as it is now (asked first and last, so that the object is also
+        # "the transaction hashed last" when the history comes back to it after an edit) and on a fresh
+        # immutable snapshot of it: one value
+        def seg(x):
+            try:
+                return SignatureHash(CScript(op[2]), x, op[3], op[4], amount=7, sigversion=SIGVERSION_WITNESS_V0)
+            except Exception as e:  # noqa
+                return type(e).__name__
+        w1 = seg(o)
+        w2 = seg(CTransaction.from_tx(o))
+        w3 = seg(o)
+        if not (w1 == w2 == w3):
             raise RuntimeError('segwit signature hash of the object differs from that of its snapshot')
         return r
     elif t == 17:
